@@ -254,6 +254,155 @@ def loop_spans(body):
     return spans
 
 
+# ----------------------------------------------------------------------------- wave 3: OpenMP regions, SPE annealing
+def blank_comments_strings(text):
+    """comments and string/char literals replaced by spaces, newlines kept (line numbers stay valid)"""
+    out, i, n = [], 0, len(text)
+    while i < n:
+        c = text[i]
+        if text.startswith("//", i):
+            j = text.find("\n", i)
+            j = n if j < 0 else j
+            out.append(" " * (j - i)); i = j
+        elif text.startswith("/*", i):
+            j = text.find("*/", i + 2)
+            j = n if j < 0 else j + 2
+            out.append("".join(ch if ch == "\n" else " " for ch in text[i:j])); i = j
+        elif c == '"' or (c == "'" and not (i > 0 and text[i - 1].isalnum())):
+            j = i + 1
+            while j < n and text[j] != c and text[j] != "\n":
+                j += 2 if text[j] == "\\" else 1
+            out.append(c + " " * (j - i - 1) + (c if j < n and text[j] == c else "")); i = j + 1
+        else:
+            out.append(c); i += 1
+    return "".join(out)
+
+def match_close4(s, i, oc, cc):
+    depth = 0
+    for j in range(i, len(s)):
+        if s[j] == oc: depth += 1
+        elif s[j] == cc:
+            depth -= 1
+            if depth == 0: return j
+    fail("unbalanced %s" % oc)
+
+def statement_end(s, i):
+    """index just past the statement that starts at (or after whitespace / pragmas following) position i"""
+    n = len(s)
+    while True:
+        while i < n and s[i].isspace(): i += 1
+        if s.startswith("#", i):                      # a nested pragma line belongs to the statement after it
+            j = s.find("\n", i); i = n if j < 0 else j + 1
+            continue
+        break
+    if i >= n: fail("statement expected after #pragma omp")
+    if s[i] == "{":
+        return match_close4(s, i, "{", "}") + 1
+    m = re.match(r"(for|while|if|switch)\b\s*", s[i:])
+    if m:
+        p = i + m.end()
+        if p >= n or s[p] != "(": fail("`(` expected after %s" % m.group(1))
+        q = match_close4(s, p, "(", ")")
+        e = statement_end(s, q + 1)
+        if m.group(1) == "if":
+            m2 = re.match(r"\s*else\b", s[e:])
+            if m2: e = statement_end(s, e + m2.end())
+        return e
+    m = re.match(r"do\b", s[i:])
+    if m:
+        e = statement_end(s, i + 2)
+        j = s.find(";", e)
+        return n if j < 0 else j + 1
+    m = re.match(r"try\b", s[i:])
+    if m:
+        e = statement_end(s, i + 3)
+        while True:
+            m2 = re.match(r"\s*catch\s*", s[e:])
+            if not m2: return e
+            p = e + m2.end(); q = match_close4(s, p, "(", ")"); e = statement_end(s, q + 1)
+    # expression statement: up to the ';' at depth 0
+    depth = 0
+    for j in range(i, n):
+        if s[j] in "([{": depth += 1
+        elif s[j] in ")]}": depth -= 1
+        elif s[j] == ";" and depth == 0: return j + 1
+    fail("`;` expected")
+
+PRAGMA = re.compile(r"^[ \t]*#[ \t]*pragma[ \t]+omp[ \t]+([^\n]*)$", re.M)
+
+def scan_omp(repo, inc="include/tapkee"):
+    """-> (regions, throws, orphans): #parallel regions; `throw` statements lexically inside a parallel region (an
+    exception cannot leave the structured block: std::terminate); work-sharing constructs (`omp for`, `sections`,
+    `single`) that are NOT lexically inside a parallel region of the same file (orphaned: they bind to the CALLER's
+    team when the application calls tapkee from its own parallel region)"""
+    regions, throws, orphans = 0, [], []
+    root = os.path.join(repo, inc)
+    files = []
+    for dp, dn, fn in os.walk(root):
+        for f in fn:
+            if f.endswith((".hpp", ".h")): files.append(os.path.join(dp, f))
+    if not files: fail("no headers under %s" % root)
+    for path in sorted(files):
+        rel = os.path.relpath(path, os.path.join(repo, inc))
+        try:
+            raw = open(path, errors="replace").read()
+        except OSError as ex:
+            fail("cannot read %s: %s" % (rel, ex))
+        if "pragma" not in raw: continue
+        s = blank_comments_strings(raw.replace("\\\n", "  "))
+        spans = []
+        prs = list(PRAGMA.finditer(s))
+        for m in prs:
+            words = m.group(1).split()
+            if words and words[0] == "parallel":
+                e = statement_end(s, m.end())
+                spans.append((m.end(), e)); regions += 1
+        for (a, b) in spans:
+            for t in re.finditer(r"\bthrow\b", s[a:b]):
+                # a throw caught inside the region by an enclosing try block is fine; anything else is not
+                line = s.count("\n", 0, a + t.start()) + 1
+                if not enclosed_by_try(s, a, a + t.start()):
+                    throws.append((rel, line))
+        for m in prs:
+            words = m.group(1).split()
+            if words and re.match(r"(for|sections|single)\b", words[0]):
+                if not any(a <= m.start() < b for (a, b) in spans):
+                    orphans.append((rel, s.count("\n", 0, m.start()) + 1))
+    if regions == 0: fail("no `#pragma omp parallel` region found under %s" % inc)
+    return regions, sorted(set(throws)), sorted(set(orphans))
+
+def enclosed_by_try(s, a, pos):
+    """is position pos inside the block of a `try` that starts inside [a, pos) and has a catch (...) handler"""
+    for m in re.finditer(r"\btry\s*\{", s[a:pos]):
+        o = a + m.end() - 1
+        c = match_close4(s, o, "{", "}")
+        if o < pos < c and re.match(r"\s*catch\s*\(\s*\.\.\.\s*\)", s[c + 1:]):
+            return True
+    return False
+
+def spe_anneal(repo, inc="include/tapkee"):
+    """spe.hpp: the divisor of the annealing step `lambda = lambda - (lambda / X)` and the bound of the main loop
+    `for (i = 0; i < B; ++i)` that contains it -> (X, B)"""
+    raw = open(os.path.join(repo, inc, "routines/spe.hpp")).read()
+    s = blank_comments_strings(raw)
+    m = re.search(r"\blambda\s*(?:=\s*lambda\s*-|-=)\s*\(?\s*lambda\s*/\s*(?:static_cast\s*<[^<>]*>\s*\(\s*)?([A-Za-z_]\w*)", s)
+    if not m: fail("statement not found: spe.hpp lambda = lambda - (lambda / ..)")
+    div = m.group(1)
+    bound = None
+    for f in re.finditer(r"\bfor\s*\(", s):
+        q = match_close4(s, f.end() - 1, "(", ")")
+        e = statement_end(s, q + 1)
+        if f.start() < m.start() < e:
+            head = s[f.end():q]
+            parts = head.split(";")
+            if len(parts) == 3:
+                mm = re.match(r"\s*(\w+)\s*<\s*([A-Za-z_]\w*)\s*$", parts[1])
+                if mm: bound = mm.group(2)      # innermost enclosing loops come later: keep the OUTERMOST
+                break
+    if bound is None: fail("spe.hpp: main loop `for (i = 0; i < B; ++i)` around the annealing step not found")
+    return div, bound
+
+
 def read(repo):
     def src(rel):
         p = os.path.join(repo, INC, rel)
@@ -317,21 +466,32 @@ def read(repo):
     F["f_tsne_rowp"] = one(gp, r"\*_row_P\s*=\s*\(int\*\)\s*malloc\s*\(\s*(.+?)\s*\*\s*sizeof\s*\(int\)\s*\)\s*;", "tsne.hpp *_row_P = malloc(..)", n_ts)
     F["f_tsne_colp"] = one(gp, r"\*_col_P\s*=\s*\(int\*\)\s*[mc]alloc\s*\(\s*(.+?)\s*[,*]\s*sizeof\s*\(int\)\s*\)\s*;", "tsne.hpp *_col_P = calloc(..)", n_ts)
     F["f_tsne_curp"] = one(gp, r"\bcur_P\s*=\s*\(ScalarType\*\)\s*malloc\s*\(\s*(.+?)\s*\*\s*sizeof\s*\(ScalarType\)\s*\)\s*;", "tsne.hpp cur_P = malloc(..)", n_ts)
+    # ---- every header: throw statements inside OpenMP regions, orphaned work-sharing constructs
+    regions, throws, orphans = scan_omp(repo, INC)
+    F["f_omp_throws"] = ("sites", throws)
+    F["f_omp_orphans"] = ("sites", orphans)
+    F["_omp_regions"] = regions
+    # ---- routines/spe.hpp: the divisor of the annealing step is the bound of the loop it sits in
+    div, bound = spe_anneal(repo, INC)
+    F["f_spe_anneal_div_is_bound"] = (div == bound)
     return F
 
 
 ORDER = ["f_spe_clamp", "f_spe_ind2", "f_spe_sel", "f_spe_nbsize", "f_spe_nbwrite", "f_spe_rscale", "f_spe_roff",
          "f_spe_bufs", "f_spe_indices", "f_nb_clamp", "f_nb_retry_reclamps", "f_ltsa_cols", "f_hlle_dp",
-         "f_hlle_cols", "f_hlle_ct", "f_tsne_kfactor", "f_tsne_rowp", "f_tsne_colp", "f_tsne_curp"]
+         "f_hlle_cols", "f_hlle_ct", "f_tsne_kfactor", "f_tsne_rowp", "f_tsne_colp", "f_tsne_curp",
+         "f_omp_throws", "f_omp_orphans", "f_spe_anneal_div_is_bound"]
 
 
 def emit(F):
     L = ["(* GENERATED by translate/t_shapes.py from routines/spe.hpp, neighbors/neighbors.hpp,",
-         "   routines/locally_linear.hpp and external/barnes_hut_sne/tsne.hpp -- do not edit.",
+         "   routines/locally_linear.hpp, external/barnes_hut_sne/tsne.hpp and (OpenMP scan) every header -- do not edit.",
          "   Table of property C01: see Shapes_Src.v for the meaning of each field. *)",
-         "From Coq Require Import ZArith.",
+         "From Coq Require Import ZArith List String.",
          "From TK Require Import Shapes_Src.",
+         "Import ListNotations.",
          "Local Open Scope Z_scope.",
+         "(* %d `omp parallel` regions scanned *)" % F.get("_omp_regions", 0),
          "",
          "Definition gen_facts : facts :=",
          "  {|"]
@@ -340,6 +500,8 @@ def emit(F):
         v = F[k]
         if isinstance(v, bool):
             rows.append("     %s := %s" % (k, "true" if v else "false"))
+        elif isinstance(v, tuple) and v and v[0] == "sites":
+            rows.append("     %s := [%s]" % (k, "; ".join('("%s"%%string, %d)' % (f.replace('"', ""), ln) for f, ln in v[1])))
         elif isinstance(v, int):
             rows.append("     %s := (%d)" % (k, v))
         else:
@@ -363,7 +525,8 @@ def emit(F):
 def translate(repo):
     try:
         F = read(repo)
-        return emit(F), {k: (v if isinstance(v, (bool, int)) else show_sx(v)) for k, v in F.items()}
+        return emit(F), {k: (v if isinstance(v, (bool, int)) else [list(x) for x in v[1]] if v[0] == "sites" else show_sx(v))
+                         for k, v in F.items()}
     except TranslateError:
         raise
     except (IndexError, KeyError, ValueError, AttributeError, TypeError) as ex:
@@ -389,6 +552,14 @@ SELF_TEST = [
     ("routines/locally_linear.hpp", "ct += target_dimension - j;", "ct += target_dimension - j + 1;", True),
     ("external/barnes_hut_sne/tsne.hpp", "(int)(3 * perplexity)", "(int)(4 * perplexity)", True),
     ("neighbors/neighbors.hpp", "k = static_cast<IndexType>(end - begin - 1);", "k = static_cast<IndexType>(end - begin);", None),
+    # wave 3: a throw inside an OpenMP region; an orphaned omp for; the annealing divisor no longer the loop bound
+    ("routines/locally_linear.hpp", "            solver.compute(gram_matrix);\n",
+     "            solver.compute(gram_matrix);\n            if (solver.info() != Eigen::Success)\n                throw eigendecomposition_error(\"local\");\n", True),
+    ("routines/locally_linear.hpp", "            solver.compute(gram_matrix);\n",
+     "            solver.compute(gram_matrix); // would throw eigendecomposition_error here\n", False),
+    ("routines/multidimensional_scaling.hpp", "#pragma omp parallel\n    {\n        IndexType i_index_iter, j_index_iter;\n#pragma omp for nowait",
+     "    {\n        IndexType i_index_iter, j_index_iter;\n#pragma omp for nowait", True),
+    ("routines/spe.hpp", "for (IndexType i = 0; i < max_iter; ++i)", "const IndexType iterations = max_iter;\n    for (IndexType i = 0; i < iterations; ++i)", True),
 ]
 
 
@@ -427,7 +598,7 @@ def main():
     ap.add_argument("--self-test", action="store_true")
     a = ap.parse_args()
     if a.self_test:
-        n, bad = self_test(a.repo, "/tmp/c01b_t_shapes_selftest")
+        n, bad = self_test(a.repo, "/tmp/c01c_t_shapes_selftest")
         print("t_shapes self-test: %d mutations, %d failures" % (n, len(bad)))
         for b in bad:
             print("  " + b)
